@@ -352,7 +352,9 @@ def r6(chk):
                 and norm(base.value) in returned
         chk.ob("C07.R6", f"{rel}:{q}", "selection-order-recorded", ok,
                "the position of each card in the drawn sample is recorded as its selection_order", node=fn, strength="N")
-    fn = chk.fn(REL, "CVR.prep_comparison_sample", canonical=True)
+    # (putting a sample back into selection order is what prep_polling_sample does: a call of it counts as its body)
+    fn = chk.fn_with(REL, "CVR.prep_comparison_sample", {"CVR.prep_polling_sample": (REL, "CVR.prep_polling_sample"),
+                                                         "cls.prep_polling_sample": (REL, "CVR.prep_polling_sample")}, canonical=True)
     sorts = [c for c in walk_local(fn) if isinstance(c, ast.Call) and isinstance(c.func, ast.Attribute) and c.func.attr == "sort"]
     keys = {}
     for c in sorts:
